@@ -351,14 +351,14 @@ def finish(ctx, level_text=""):
         if f["key"] in seen:
             continue
         seen.add(f["key"])
-        rp = write_replay(ctx, f["key"], {"kind": "failing-input", "property": ctx.pid, "seed": ctx.seed, **f,
+        rp = write_replay(ctx, f["key"], {"kind": "failing-input", "property": ctx.pid, "seed": ctx.seed, "tier": ctx.tier, **f,
                                           "broken": ctx.broken})
         print(f"VIOLATION property={ctx.pid} replay={rp}")
         violations += 1
     if ctx.broken and not unknown_failing:
         rp = write_replay(ctx, "broken-obligation", {
             "kind": "broken-obligation" if any(b["kind"] != "correspondence" for b in ctx.broken) else "broken-correspondence",
-            "property": ctx.pid, "seed": ctx.seed, "broken": ctx.broken,
+            "property": ctx.pid, "seed": ctx.seed, "tier": ctx.tier, "broken": ctx.broken,
             "note": "the property is no longer shown to hold: the listed theorem / correspondence stream no longer checks; "
                     "the failing-input search on the real code found no concrete violating input"})
         print(f"VIOLATION property={ctx.pid} replay={rp} no-failing-input-found")
@@ -403,9 +403,25 @@ def main():
     mod = importlib.import_module(f"checks.{a.prop}")
     ctx = Ctx(a.prop, a.tier, seed)
     try:
+        replay_payload = None
         if a.replay:
-            rc = mod.replay(ctx, json.load(open(a.replay)))
-            sys.exit(rc)
+            # a replay re-executes: (1) a listed finding's fixed reproducer, if the file names one; otherwise (2) the whole check at
+            # the tier and seed recorded in the file (all randomness derives from the seed, so the same cases are generated) and
+            # reports whether the recorded failing key / broken obligation shows again.  Exit 1 iff it reproduces.
+            replay_payload = json.load(open(a.replay))
+            print(json.dumps({k: v for k, v in replay_payload.items() if k != "broken"}, indent=1, default=str)[:3000])
+            key = replay_payload.get("key")
+            if key:
+                try:
+                    from oracles import known as known_replays
+                    still, detail = known_replays.replay(a.prop, key)
+                except Exception as e:  # noqa: BLE001
+                    still, detail = None, str(e)
+                if still is not None:
+                    print(f"REPLAY {a.prop} {key}: fixed reproducer {'still fails' if still else 'no longer fails'}: {str(detail)[:300]}")
+                    sys.exit(1 if still else 0)
+            ctx = Ctx(a.prop, replay_payload.get("tier", "quick") if replay_payload.get("tier") in ("quick", "thorough") else "quick",
+                      int(replay_payload.get("seed", seed)))
         regenerate(ctx, getattr(mod, "GEN", []))
         drv = lake_build_quiet(["driver"])
         ctx.driver_ok = drv
@@ -431,6 +447,15 @@ def main():
                                 "desc": f"{type(e).__name__}: {str(e)[:200]} raised at {where[:160]} while the check exercised the real code",
                                 "replay": {"traceback_tail": tb[-1500:]}})
         check_streams(ctx)
+        if replay_payload is not None:
+            want_key = replay_payload.get("key")
+            want_broken = {b.get("name") for b in replay_payload.get("broken", [])}
+            got_keys = {f["key"] for f in ctx.failing}
+            got_broken = {b.get("name") for b in ctx.broken}
+            again = (want_key in got_keys) if want_key else bool(want_broken & got_broken)
+            print(f"REPLAY {a.prop} seed={ctx.seed}: recorded {'key ' + want_key if want_key else 'broken obligations ' + str(sorted(want_broken))[:200]} "
+                  f"{'REPRODUCED' if again else 'did not reproduce'} (failing now: {sorted(got_keys)[:6]}, broken now: {sorted(got_broken)[:6]})")
+            sys.exit(1 if again else 0)
         sys.exit(finish(ctx))
     except SystemExit:
         raise
